@@ -108,6 +108,20 @@ def run(ctx):
         ids.extend('.'.join(c) for c in itertools.product(comps, repeat=ln))
     if quick:
         ids.extend('.'.join(c) for c in itertools.product(reduced, repeat=5))
+    # identifiers are compared as they are: spellings that differ from a registered key only by the case of a letter are other identifiers
+    case_ids = []
+    for base in REAL_IDS + sorted(registry):
+        parts = base.split('.')
+        for j in range(len(parts)):
+            for f in (str.capitalize, str.upper):
+                v = parts[:j] + [f(parts[j])] + parts[j + 1:]
+                if v != parts:
+                    case_ids.append('.'.join(v))
+                    if parts[0] != 'proto':
+                        case_ids.append('proto.alpha.' + '.'.join(v))
+    case_ids = sorted(set(case_ids))
+    ids.extend(case_ids)
+    ctx.extra['case_variant_ids'] = len(case_ids)
     distractors = ['proto.alpha.tez.subtraction_underflow', 'michelson_v1.bad_return', 'proto.alpha.michelson_v1.script_rejected', 'node.unknown']
     prefixes = [list(p) for n in range(0, 3) for p in itertools.product(distractors, repeat=n)]
     cases = [[]]
